@@ -710,7 +710,8 @@ class VMF:
             else:
                 self.node_id.discard(node_id)
 
-        self.ent_id.discard(item.id)
+        # The entity keeps its ID for as long as the object exists (it can be re-added), Entity.__del__()
+        # is what releases it. Releasing it here as well let two live entities end up with the same ID.
 
     def add_brushes(self, brushes: Iterable['Solid']) -> None:
         """Add multiple brushes to the map."""
